@@ -2,7 +2,7 @@
 sandbox whose (stubbed) program printed a SYMBOLIC text; exact_strings=True keeps the comparison symbolic-friendly."""
 from engine.prelude import tick, flag, excluded, bits, PART
 import pedal.assertions.runtime as R
-from sandbox_common import state, fresh
+from sandbox_common import stub_canary, state, fresh, stub_reached
 
 QUIET = {"context": False, "assertion": False}     # message text is not the subject (formatting realises symbolic text)
 
@@ -26,10 +26,14 @@ def output_exact(printed: str, expected: str, failed: bool) -> bool:
         return True
     r, sb = fresh()
     state["term"], state["text"] = (1 if failed else 0), printed
+    calls_before = state["calls"]
     try:
         sb.run()
     finally:
         state["term"] = 0
+    if not stub_reached(calls_before):
+        flag("stub_dead")
+        return True
     out = _chomp(printed)
     if len(printed) >= 2 and printed[-2:] == "\n\r":
         return True                      # pedal's chomp also removes "\n\r"; not part of the property text
